@@ -212,8 +212,17 @@ Universe_C11 ==
      opt \in {"default40", "k_irf15", "k_drf25", "k_misc", "k_res", "fev_3npt"},
      cb \in {NoCb, <<"kw", 0>>, <<"pos", 0>>, <<"stop", 9>>}}
 
+(* ---- C10: problems whose statement can be varied ----------------------- *)
+Universe_C10 ==
+  {D(n, bp, x0, sc, obj, NoFault, lin, nl, bf, opt, NoCb) :
+     n \in {2, 3}, bp \in UNION {FixSets(m) : m \in {2, 3}} \cup {<<"lower", "upper">>, <<"wide", "fixed", "ugly">>},
+     x0 \in {"inside", "onlower"}, sc \in BOOLEAN, obj \in {"quad", "rosen", "none"},
+     lin \in {"none", "ub", "two", "eq"}, nl \in {"none", "nlc_ub", "nlc_two", "dict_ineq", "dict_eq", "vector", "two_dicts"},
+     bf \in {"Bounds", "array"}, opt \in {"default40", "fev_3npt"}}
+
 Universe(id) ==
-  CASE id = "C11" -> Universe_C11
+  CASE id = "C10" -> Universe_C10
+    [] id = "C11" -> Universe_C11
     [] id = "C01" -> Universe_C01
     [] id = "C02" -> Universe_C02
     [] id = "C05" -> Universe_C05
